@@ -653,7 +653,8 @@ func (fr *fileReader) ReadAt(p []byte, off int64) (n int, err error) {
 	var found bool
 	var nr int64
 	for _, e := range fr.r.toc.Entries[ent.chunkTopIndex:] {
-		if !e.isDataType() {
+		if !e.isDataType() || (e.Type == "reg" && e.Size == 0) {
+			// An empty file has no data in the stream (and no offset of its own).
 			continue
 		}
 		if e.Offset != fr.r.toc.Entries[ent.chunkTopIndex].Offset {
